@@ -17,7 +17,7 @@ ASSUME = ["the reference parser lib/ref/dnswire_srv.py is correct (RFC 1035/6891
           "UDP datagrams are read into a 1500-byte buffer; names of 256/257 wire bytes, forward pointers, QDCOUNT 0, trailing bytes are 'either'"]
 
 REG = dict(category="exploration",
-           text="Runtime monitor of the real evdns server ports (UDP and TCP listener) fed ~4.8e3 (quick) / ~4.3e5 (thorough) generated and mutated "
+           text="Runtime monitor of the real evdns server ports (UDP and TCP listener) fed ~4.8e3 (quick) / ~2.9e5 (thorough) generated and mutated "
                 "messages / TCP streams in arbitrary segmentation under ASan+UBSan+LSan with a per-case allocation census; an independent strict DNS "
                 "parser decides for every message whether the user callback may/must/must not run and with which questions, whether NOTIMPL is due, "
                 "and which size limit (OPT) the reply must respect. Held-on-observed only.",
